@@ -73,7 +73,11 @@ theorem recv_intact_before (hs : Setting p sh enc s0 pkts) (hint : IntCtxt p sh 
     feedAll_quiet hs.bs_pos chunks _ (Or.inl rfl)
   exact quiet_complete hs e hinv hq pre post hpp hok
 
-/-- once the receiver has closed the connection nothing more is ever delivered -/
+/-- once the receiver has closed the connection nothing more is ever delivered.  (`closed` is the state the receive
+    loop enters itself when a packet fails its integrity or framing checks: in the code the exception leaves
+    `_recv_data`'s loop.  A close made from inside a packet handler — the peer's DISCONNECT, the application calling
+    `abort()` — is not this state: the loop goes on through the segment it is working on, which then holds
+    authentic packets only; found by the faithfulness audit, harmless for C01.) -/
 theorem closed_is_final (e : Bool) (st : RState) (h : st.closed ≠ none) (chunks : List Bytes) :
     (feedAll p sh e st chunks).2 = [] ∧ (feedAll p sh e st chunks).1.closed = st.closed := by
   induction chunks generalizing st with
